@@ -28,7 +28,7 @@ func (w *world) canon(cnt simCounters) string {
 	for _, n := range w.nodes {
 		fmt.Fprintf(&sb, "N%d:", n.id)
 		if !n.up {
-			fmt.Fprintf(&sb, "down(%s);\n", w.canonDisk(n))
+			fmt.Fprintf(&sb, "down(%s dead%v);\n", w.canonDisk(n), n.dead)
 			continue
 		}
 		r := n.r
@@ -203,8 +203,8 @@ func (w *world) canonDisk(n *simNode) string {
 	}
 	defer st.log.Close()
 	var sb strings.Builder
-	fmt.Fprintf(&sb, "t%d v%d log(%d:", st.term, st.votedFor, st.log.PrevIndex())
-	for i := st.log.PrevIndex() + 1; i <= st.lastLogIndex; i++ {
+	fmt.Fprintf(&sb, "t%d v%d last%d log(%d:", st.term, st.votedFor, st.lastLogIndex, st.log.PrevIndex())
+	for i := st.log.PrevIndex() + 1; i <= st.log.LastIndex(); i++ {
 		e := &entry{}
 		if err := st.getEntry(i, e); err != nil {
 			fmt.Fprintf(&sb, "?%d,", i)
